@@ -1,6 +1,7 @@
 import Orx.KSRun
 import Orx.IW.Completed
 import Orx.IW.Full
+import Orx.GenThms
 /-! # C11 try_get_len / has_more are truthful; 'No' is definitive -/
 namespace Orx.Props.C11
 open Orx Orx.KS
@@ -48,5 +49,17 @@ theorem iter_unknown_size (r : Nat) : IWF.moreOf (IWF.lenOut none false r) = .ma
 theorem iter_report_monotone (s : IW.Script) (σ : List Nat) (c : IW.Cfg) (l : Nat) :
     l - (IW.run s σ c).R ≤ l - c.R := by
   have := IW.run_R_mono s σ c; omega
+
+
+/-! ## The source itself (translated on every run) -/
+open Orx.RS Orx.Gen Orx.GenThms Orx.KS in
+/-- **`try_get_len` as it is in the source** is one `Acquire` load `c` of the counter and returns `lenOf len c`, the
+function `len_truthful` / `lenOf_mono` are about; the subtraction `initial_len - current` cannot underflow -/
+theorem source_try_get_len (len a b c : Nat) (evs dr) :
+    Slice.try_get_len (slice len) (st c evs dr) = .ok (some (lenOf len c)) (st c (evs ++ [.ld (.ctr 0) .acquire c]) dr) ∧
+    Vec.try_get_len (vec len) (st c evs dr) = .ok (some (lenOf len c)) (st c (evs ++ [.ld (.ctr 0) .acquire c]) dr) ∧
+    Arr.try_get_len len (arr len) (st c evs dr) = .ok (some (lenOf len c)) (st c (evs ++ [.ld (.ctr 0) .acquire c]) dr) ∧
+    Range.try_get_len (range a b) (st c evs dr) = .ok (some (lenOf (b - a) c)) (st c (evs ++ [.ld (.ctr 0) .acquire c]) dr) :=
+  ⟨slice_try_get_len len c evs dr, vec_try_get_len len c evs dr, arr_try_get_len len c evs dr, range_try_get_len a b c evs dr⟩
 
 end Orx.Props.C11
